@@ -32,13 +32,13 @@ type Program struct {
 
 // extra packages interpreted from their real SSA bodies (small, pure Go)
 var interpPkgs = map[string]bool{
-	"errors":                         true,
-	"github.com/ferranbt/fastssz":    true,
-	"github.com/pkg/errors":          false,
-	"encoding/binary":                true,
-	"math/bits":                      true,
-	"github.com/google/go-cmp/cmp":   false,
-	"github.com/censync/go-dto":      false,
+	"errors":                          true,
+	"github.com/ferranbt/fastssz":     true,
+	"github.com/pkg/errors":           false,
+	"encoding/binary":                 true,
+	"math/bits":                       true,
+	"github.com/google/go-cmp/cmp":    false,
+	"github.com/censync/go-dto":       false,
 	"github.com/censync/go-validator": false,
 }
 
